@@ -194,11 +194,20 @@ def run(ctx, repo, tier):
         if isinstance(n, ast.Assign) and len(n.targets) == 1 and isinstance(n.targets[0], ast.Name):
             defs.setdefault(n.targets[0].id, []).append(n.value)
 
+    from ..astutil import inline_helpers, local_defs_with_unpack
+    unpack_defs = local_defs_with_unpack(fd.node.body)
+
     def expand(e, depth=0):
         if depth > 6:
             return e
         if isinstance(e, ast.Name) and e.id in defs and len(defs[e.id]) == 1:
             return expand(defs[e.id][0], depth + 1)
+        if isinstance(e, ast.Name) and e.id in unpack_defs and e.id not in defs:
+            return expand(unpack_defs[e.id], depth + 1)
+        if isinstance(e, ast.Call) and isinstance(e.func, ast.Name) and e.func.id not in normaliser_functions(repo):
+            r_ = inline_helpers(repo, fd.module, e, skip=normaliser_functions(repo))
+            if not (isinstance(r_, ast.Call) and isinstance(r_.func, ast.Name) and r_.func.id == e.func.id):
+                return expand(r_, depth + 1)
         return e
 
     def is_np(call, name):
@@ -208,17 +217,17 @@ def run(ctx, repo, tier):
         """X[np.sort(np.unique(np.round(X, k), return_index=True, axis=0)[1])] -> X (expanded) or None"""
         e = expand(e)
         if not isinstance(e, ast.Subscript):
-            return None, "not a subscript"
+            return None, "?not a subscript"
         X = e.value
         idx = expand(e.slice)
         if not is_np(idx, "sort"):
             return None, "index is not sorted (np.sort): rows would come out in the order of np.unique (sorted by value)"
         inner = expand(idx.args[0]) if idx.args else None
         if not (isinstance(inner, ast.Subscript) and isinstance(inner.slice, ast.Constant) and inner.slice.value == 1):
-            return None, "sorted value is not element [1] (the first-occurrence indices) of np.unique(..., return_index=True)"
+            return None, "?sorted value is not element [1] (the first-occurrence indices) of np.unique(..., return_index=True)"
         u = expand(inner.value)
         if not is_np(u, "unique"):
-            return None, "not np.unique"
+            return None, "?not np.unique"
         kws = {k.arg: k.value for k in u.keywords}
         if not (isinstance(kws.get("return_index"), ast.Constant) and kws["return_index"].value is True):
             return None, "np.unique without return_index=True"
@@ -253,7 +262,10 @@ def run(ctx, repo, tier):
         # quaternions
         X, why = first_occurrence_dedupe(b_e)
         ctx.instance("ORD", 2)
-        if X is None:
+        if X is None and why.startswith("?"):
+            ctx.inconclusive("ORD", "C09.decompose.b.order", "de-duplication idiom of the rotations not recognised", dw, src(expand(b_e))[:200],
+                             witness=why[1:])
+        elif X is None:
             ctx.violate("ORD", "C09.decompose.b.order", "rotations are not de-duplicated in original (first-occurrence) order", dw,
                         src(expand(b_e))[:200], witness=why)
         else:
@@ -262,14 +274,27 @@ def run(ctx, repo, tier):
             ctx.check(cs == (3, 7), "LAYOUT", "C09.decompose.b.columns", "rotations are read from columns [3,7)", dw, src(X), witness=str(cs))
         # orientations
         X, why = first_occurrence_dedupe(o_e)
-        if X is None:
+        if X is None and why.startswith("?"):
+            ctx.inconclusive("ORD", "C09.decompose.o.order", "de-duplication idiom of the directions not recognised", dw, src(expand(o_e))[:200],
+                             witness=why[1:])
+        elif X is None:
             ctx.violate("ORD", "C09.decompose.o.order", "directions are not de-duplicated in original (first-occurrence) order", dw,
                         src(expand(o_e))[:200], witness=why)
         else:
             ctx.ok("ORD", "C09.decompose.o.order", "directions: duplicates removed by sorted first-occurrence indices (original order)", dw)
             Xe = expand(X)
             okn = isinstance(Xe, ast.Call) and isinstance(Xe.func, ast.Name) and Xe.func.id in normaliser_functions(repo) and col_slice(Xe.args[0]) == (0, 3)
-            ctx.check(okn, "LAYOUT", "C09.decompose.o.columns", "directions are the normalised columns [0,3)", dw, src(Xe)[:120], witness=src(Xe)[:200])
+            is_norm = isinstance(Xe, ast.Call) and isinstance(Xe.func, ast.Name) and Xe.func.id in normaliser_functions(repo)
+            cs_o = col_slice(Xe.args[0]) if is_norm and Xe.args else None
+            if okn:
+                ctx.ok("LAYOUT", "C09.decompose.o.columns", "directions are the normalised columns [0,3)", dw, src(Xe)[:120])
+            elif is_norm and cs_o is not None:
+                ctx.violate("LAYOUT", "C09.decompose.o.columns", "directions are not read from columns [0,3)", dw, src(Xe)[:120], witness=f"columns {cs_o}")
+            elif col_slice(Xe) is not None:
+                ctx.violate("LAYOUT", "C09.decompose.o.columns", "directions are taken from the position columns without normalisation (they "
+                            "carry the radius)", dw, src(Xe)[:120], witness=f"columns {col_slice(Xe)}, not normalised")
+            else:
+                ctx.inconclusive("LAYOUT", "C09.decompose.o.columns", "source of the directions not recognised", dw, witness=src(Xe)[:200])
         # translations: unique of norms (ascending = original order since radii ascend, C16)
         te = expand(t_e)
         okt = is_np(te, "unique") and not te.keywords
